@@ -28,9 +28,9 @@ type eSample struct {
 }
 
 type eTracker struct {
-	w       *eWorld
-	imgDir  string
-	durable map[string][]byte // last image of each file known to be on stable storage
+	w        *eWorld
+	imgDir   string
+	durable  map[string][]byte // last image of each file known to be on stable storage
 	creating string
 
 	imageNext bool // image the next op (set by the driver before the last op)
@@ -48,16 +48,16 @@ type eTracker struct {
 	lastKill  string
 
 	// results
-	evals       int64
-	nontrivial  int64
-	truncated   int64
-	anomalies   int64
-	emptyPrev0  int64
+	evals        int64
+	nontrivial   int64
+	truncated    int64
+	anomalies    int64
+	emptyPrev0   int64
 	maxDirtySeen int
-	samples     []eSample
-	wantSample  map[string]bool
-	noSamples   bool
-	only        *eViol // replay: restrict imaging to this point/model/pages
+	samples      []eSample
+	wantSample   map[string]bool
+	noSamples    bool
+	only         *eViol // replay: restrict imaging to this point/model/pages
 }
 
 func eNewTracker(imgDir string, powerloss bool, maxDirty int) *eTracker {
@@ -176,6 +176,7 @@ func (t *eTracker) onPoint(name string, s *segment) {
 // image builds and checks the crash images at the current instant.
 func (t *eTracker) image(point string) {
 	w := t.w
+	w.stats["imaged:"+point]++
 	cur := eReadDir(w.dir)
 	killHash := eImageHash(cur)
 	t.lastKill = killHash
@@ -396,7 +397,7 @@ func (t *eTracker) evalImage(point, model string, pages []ePage, ndirty int, img
 			t.cfail(point, model, pages, "reopened", "entry-never-appended-or-removed", "reopened log has entry %d = %s; the log was (%d,%d] before and is (%d,%d] after the op", j, w.describe(b), pre.prev, pre.last(), post.prev, post.last())
 			break
 		}
-		if (ok0 && bytes.Equal(b, ePayload(e0.id, e0.size))) || (ok1 && bytes.Equal(b, ePayload(e1.id, e1.size))) {
+		if (ok0 && bytes.Equal(b, ePay(e0.id, e0.size))) || (ok1 && bytes.Equal(b, ePay(e1.id, e1.size))) {
 			continue
 		}
 		want := e0
